@@ -164,6 +164,9 @@ def c_down_burst(dw_from, dw_to, aw=6, via_converter=False):
     # (2) B4 legality of what the slave sees
     h.ensure("ens.s.bte-linear", V(s.bte) == K(0, 2))
     h.ensure("ens.s.cti-legal", z3.Or(scti == K(CTI_CLASSIC, 3), scti == K(CTI_INCR, 3), scti == K(CTI_END, 3)))
+    # a presented slave beat is held (request, address, data, select, direction, tag) until the slave terminates it
+    s_tok = cat(sadr, V(s.dat_w), V(s.sel), V(s.we), scti, V(s.bte))
+    h.ensure_seq("ens.s.hold", lambda at: z3.Implies(z3.And(at(sreq, 0), z3.Not(at(z3.Or(sack, serr), 0))), z3.And(at(sreq, 1), at(s_tok, 1) == at(s_tok, 0))))
     h.ensure("ens.s.burst-seq", z3.Implies(z3.And(SO, sreq, m_follows), z3.And(sadr == sea, V(s.we) == sewe, z3.Or(scti == K(CTI_INCR, 3), scti == K(CTI_END, 3)))))
     # the slave-side burst is closed (111 tag transferred) together with the master's: after a transferred master beat that does
     # not continue a burst no slave-side burst is open; an open slave-side burst exists only inside the master's open burst
@@ -190,6 +193,7 @@ def c_down_burst(dw_from, dw_to, aw=6, via_converter=False):
     h.cover("cover.burst-read-tracked", z3.And(mxfer, z3.Not(mwe), adr == gw, m_sel_g, MO, burstmode), depth=2 * r + 2)
     h.cover("cover.burst-write-changes", z3.And(gv != iv, MO), depth=2 * r + 2)
     h.cover("cover.classic-skip", z3.And(mxfer, skip), depth=r + 2)
+    h.cover("cover.anticipated-ack-ignored", z3.And(sack, z3.Not(sreq), b(V(m.cyc)), MO), depth=r + 2)
     h.cover("cover.slave-err", z3.And(sreq, serr, k != K(0, KW)), depth=r + 2)
     h.functions = ["litex.soc.interconnect.wishbone.DownConverter.__init__"] + (["litex.soc.interconnect.wishbone.Converter.__init__"] if via_converter else [])
     h.bmc_depth = 3 * r + 4; h.cosim_cycles = 16
